@@ -69,6 +69,16 @@ pub fn visit_item(rng: &mut StdRng, it: &Value, normal: Vec<u8>) -> Vec<u8> {
     normal
 }
 
+/// Hostile.tla wrap8 / wrap16 / wrap32: the original value plus a multiple of the type's modulus (ten times 2^16 keeps a
+/// per-entry pre-allocation of tens of bytes between the two allowances instead of aborting the process)
+fn wrapped(orig: u64, kind: &str) -> String {
+    match kind {
+        "wrap8" => (orig + 256 * 4000).to_string(),
+        "wrap16" => (orig + 65536 * 10).to_string(),
+        _ => (orig as u128 + (1u128 << 32)).to_string(),
+    }
+}
+
 /// bytes of a mutated item, None = the descriptor does not change this item's encoding
 fn mutate_item(rng: &mut StdRng, it: &Value, desc: &Value, sub: usize, normal: &[u8]) -> Option<Vec<u8>> {
     let op = desc["op"].as_str()?;
@@ -90,6 +100,10 @@ fn mutate_item(rng: &mut StdRng, it: &Value, desc: &Value, sub: usize, normal: &
                 v.reverse();
             }
             Some(v)
+        }
+        "set_textnum" if desc["b"].as_str()?.starts_with("wrap") => {
+            let orig: u64 = std::str::from_utf8(normal).ok()?.trim().parse().ok()?;
+            Some(wrapped(orig, desc["b"].as_str()?).into_bytes())
         }
         "set_textnum" => Some(
             match desc["b"].as_str()? {
@@ -121,7 +135,14 @@ fn mutate_item(rng: &mut StdRng, it: &Value, desc: &Value, sub: usize, normal: &
             while start > 0 && normal[start - 1].is_ascii_digit() {
                 start -= 1;
             }
-            Some([&normal[.. start], desc["v"].as_str()?.as_bytes(), &normal[end + 1 ..]].concat())
+            let v = desc["v"].as_str()?;
+            let text = if v.starts_with("wrap") {
+                let orig: u64 = std::str::from_utf8(&normal[start ..= end]).ok()?.parse().ok()?;
+                wrapped(orig, v)
+            } else {
+                v.to_string()
+            };
+            Some([&normal[.. start], text.as_bytes(), &normal[end + 1 ..]].concat())
         }
         "drop_terminator" => {
             match ty {
